@@ -306,6 +306,9 @@ inductive DExpr where
   | condzNum (o : BinOp) (a : DExpr)
   /-- `ConditionalZExpression` on any other operand: `a op null` -/
   | condzRef (o : BinOp) (a : DExpr)
+  /-- `Condition` (basic_blocks.py) as `visit_short_circuit_condition` prints it, after its `cond1.neg()`:
+      `(a) && (b)` / `(a) || (b)` -/
+  | scc (isand : Bool) (a b : DExpr)
   /-- `InstanceExpression`: `a.name` -/
   | getField (a : DExpr) (name : String)
   /-- `StaticExpression`: `cls.name` -/
@@ -355,6 +358,7 @@ def print : DExpr → List Tok
   | .condzBool o a => if o = .eq then .bang :: print a else print a
   | .condzNum o a => print a ++ [.bin o, .int 0]
   | .condzRef o a => print a ++ [.bin o, .kwNull]
+  | .scc i a b => [.lp] ++ print a ++ [.rp, .bin (if i then .land else .lor), .lp] ++ print b ++ [.rp]
   | .getField a n => print a ++ [.dot, .id n]
   | .getStatic h t n => qnToks h t ++ [.dot, .id n]
   | .aload a i => print a ++ [.lb] ++ print i ++ [.rb]
@@ -398,6 +402,7 @@ def toJava : DExpr → JExpr
   | .condzBool o a => if o = .eq then .unary .not (toJava a) else toJava a
   | .condzNum o a => .bin o (toJava a) (.intLit 0)
   | .condzRef o a => .bin o (toJava a) .null
+  | .scc i a b => .bin (if i then .land else .lor) (.paren (toJava a)) (.paren (toJava b))
   | .getField a n => .select (toJava a) n
   | .getStatic h t n => .select (qnExpr h t) n
   | .aload a i => .index (toJava a) (toJava i)
@@ -422,6 +427,7 @@ def level : DExpr → Nat
   | .condzCmp o _ _ | .condzNum o _ | .condzRef o _ => o.prec
   | .condzBool o _ => if o = .eq then 13 else 15
   | .newArray _ _ => 14
+  | .scc i _ _ => if i then 4 else 3
   | _ => 15
 
 mutual
@@ -438,6 +444,7 @@ def wf : DExpr → Bool
   | .checkCast _ _ a => wf a && decide (14 ≤ level a)
   | .cond o a b => wf a && wf b && decide (o.prec ≤ level a) && decide (o.prec < level b)
   | .cmp long a b => long && wf a && wf b
+  | .scc _ a b => wf a && wf b
   | .condzCmp o a b => wf a && wf b && decide (o.prec ≤ level a) && decide (o.prec < level b)
   | .condzBool o a => wf a && decide ((if o = .eq then 13 else 15) ≤ level a)
   | .condzNum o a | .condzRef o a => wf a && decide (o.prec ≤ level a)
